@@ -351,6 +351,21 @@ func compressWith(codec string, data []byte) []byte {
 	panic("no in-process encoder for " + codec)
 }
 
+// compressMaybeMulti: a gzip member may consist of several gzip streams
+// back to back (RFC 1952 section 2.2; dpkg-deb reads such packages).  One run
+// in four splits the tar, preferably on a 512-byte tar block boundary.
+func compressMaybeMulti(t *rt.Tape, r *rt.Run, codec string, tarBytes []byte, label string) []byte {
+	if codec != "gz" || len(tarBytes) < 1024 || !t.Bool(1, 4, label) {
+		return compressWith(codec, tarBytes)
+	}
+	cut := 512 * (1 + t.Draw(len(tarBytes)/512-1, label+".cut"))
+	if t.Bool(1, 3, label+".odd") {
+		cut = 1 + t.Draw(len(tarBytes)-1, label+".oddcut")
+	}
+	r.Probe("gzip-member-with-several-streams")
+	return append(compressWith("gz", tarBytes[:cut]), compressWith("gz", tarBytes[cut:])...)
+}
+
 // --- fixture corpus for xz / bz2 --------------------------------------------
 
 type ctlFixture struct {
@@ -473,7 +488,7 @@ func genDeb(t *rt.Tape, r *rt.Run, pair int, codecs []string) *debPkg {
 		}
 	default:
 		p.Ctl = genCtlPayload(t, "deb.ctl")
-		ctlBytes = compressWith(p.CtlCodec, buildTar(p.Ctl.Files))
+		ctlBytes = compressMaybeMulti(t, r, p.CtlCodec, buildTar(p.Ctl.Files), "deb.ctlmulti")
 	}
 	switch p.DataCodec {
 	case "xz", "bz2":
@@ -485,7 +500,7 @@ func genDeb(t *rt.Tape, r *rt.Run, pair int, codecs []string) *debPkg {
 		}
 	default:
 		p.Data = genDataPayload(t, "deb.data")
-		dataBytes = compressWith(p.DataCodec, buildTar(p.Data.Files))
+		dataBytes = compressMaybeMulti(t, r, p.DataCodec, buildTar(p.Data.Files), "deb.datamulti")
 	}
 	mk := func(name string, data []byte) *arMember {
 		return &arMember{Name: name, RawName: name, Timestamp: 1_600_000_000, Mode: "100644", Data: data}
